@@ -542,3 +542,15 @@ def r02_8_fork_before_constrain(repo: Repo, rep: Report):
 
 
 RULES.append(r02_8_fork_before_constrain)
+
+
+def r02_9_shared(repo: Repo, rep: Report):
+    """the set of jump targets enumerated for a symbolic JUMP is the scanner's table: a JUMPDEST the scanner loses is a
+    feasible behaviour that is never explored (shared with C19)"""
+    from hsa.rules.c19 import r19_1_insn_len, r19_2_scanner_decoder, r19_7_concreteness_predicate
+
+    for f in (r19_1_insn_len, r19_2_scanner_decoder, r19_7_concreteness_predicate):
+        f(repo, rep)
+
+
+RULES.append(r02_9_shared)
